@@ -29,7 +29,8 @@ Section XYZ.
       n1 <- int_of w1 ;;
       if canon_int w1 then
         n <- int_of w1 ;;
-        _ <- idx lines (start + 1) ;;
+        _ <- (if Nat.ltb (start + 1) (List.length lines)
+              then bind (idx lines (start + 1)) (fun _ => Ok tt) else Ok tt) ;;   (* title, "" when the text ends here *)
         Ok (n, start + 2)
       else Raise FormatError
     else Raise FormatError.
